@@ -872,7 +872,7 @@ def mentions_fp(t) -> bool:
     key = t.get_id()
     hit = _FP_MENTION.get(key)
     if hit is not None:
-        return hit
+        return hit[1]
     seen, stack, found = set(), [t], False
     while stack and not found:
         u = stack.pop()
@@ -884,9 +884,9 @@ def mentions_fp(t) -> bool:
             found = True
             break
         stack.extend(u.children())
-    if len(_FP_MENTION) > 200000:
+    if len(_FP_MENTION) > 50000:
         _FP_MENTION.clear()
-    _FP_MENTION[key] = found
+    _FP_MENTION[key] = (t, found)  # the term is kept alive with its verdict: z3 re-uses the ids of collected terms
     return found
 
 
